@@ -533,6 +533,189 @@ func c03Histories(c *core.Ctx) int {
 	return n
 }
 
+// long literals: two texts holding a literal of the same kind and length (> 256 bytes) that differ in exactly one
+// byte, at every position, formatted one after the other in one process (an interning table keyed by less than the
+// whole literal would hand the second one the first one's token)
+func c03LongLiterals(c *core.Ctx) int {
+	kinds := []struct {
+		name       string
+		open, clos string
+	}{{"string", `x = "`, "\"\n"}, {"blockcomment", "/* ", " */\n"}, {"linecomment", "// ", "\n"}, {"ident", "", "\n"}, {"rawstring", "x = `", "`\n"}}
+	n := 0
+	for _, k := range kinds {
+		for _, L := range []int{257, 300} {
+			for pos := 0; pos < L; pos++ {
+				key := fmt.Sprintf("longlit|%s|%d|%d", k.name, L, pos)
+				if !c.MineNoDedup("longlit", key) {
+					continue
+				}
+				n++
+				body := []byte(strings.Repeat("a", L))
+				a := k.open + string(body) + k.clos
+				body[pos] = 'b'
+				b := k.open + string(body) + k.clos
+				cs := core.Case{Kind: "longlit", Cfg: k.name, Data: fmt.Sprintf("%d bytes, differing at %d", L, pos)}
+				v := c.Run(func() *core.Viol {
+					token.Init()
+					gb := c03Format(b)
+					token.Init()
+					ga := c03Format(a)
+					for i, step := range []string{b, a, b} {
+						want := gb
+						if step == a {
+							want = ga
+						}
+						if got := c03Format(step); got != want {
+							return &core.Viol{Class: "history-dependent-format", Detail: fmt.Sprintf("%s literal of %d bytes: step %d formatted as %s, %s in a fresh process state (the other text differs at byte %d only)", k.name, L, i, trunc(got, 700), trunc(want, 700), pos), Case: cs}
+						}
+					}
+					if !strings.Contains(gb, "b") {
+						return &core.Viol{Class: "HARNESS-longlit", Detail: gb, Case: cs}
+					}
+					return nil
+				})
+				o := "hist-ok"
+				if v != nil {
+					o = v.Class
+				}
+				c.CountNT(key, o, true)
+				c.P.Traces++
+			}
+		}
+	}
+	return n
+}
+
+// inputs the process rejects (too deep, syntax errors, incomplete, illegal bytes): what comes after them formats as in a
+// fresh process
+var c03Rejected = []string{strings.Repeat("(", 10001) + "1" + strings.Repeat(")", 10001), "1" + strings.Repeat("+1", 100001), "a" + strings.Repeat("[0]", 100001),
+	strings.Repeat("if a {", 10001) + strings.Repeat("}", 10001), "(", "1 +", "\"abc", "/* open", "@", "a b c )", "x = = 1", "func f(a, a) {}", "{1:}", "if {", "\x00", "0x"}
+
+func c03AfterRejected(c *core.Ctx) int {
+	valid := append(append([]string{}, c03HistInputs...), "x = 1\n", "func f(a) { a + 1 }", "m = macro(x) { quote(unquote(x)) }; m(1)", "if a { 1 } else { 2 }", "[1, 2, {3: 4}]")
+	golden := make([]string, len(valid))
+	for i, in := range valid {
+		token.Init()
+		golden[i] = c03Format(in)
+	}
+	n := 0
+	for i, e1 := range c03Rejected {
+		for j, e2 := range c03Rejected {
+			key := fmt.Sprintf("afterrejected|%d|%d", i, j)
+			if !c.MineNoDedup("afterrejected", key) {
+				continue
+			}
+			n++
+			cs := core.Case{Kind: "afterrejected", Data: fmt.Sprintf("%d,%d", i, j)}
+			v := c.Run(func() *core.Viol {
+				token.Init()
+				_ = c03Format(e1)
+				if i != j {
+					_ = c03Format(e2)
+				}
+				for k, in := range valid {
+					if got := c03Format(in); got != golden[k] {
+						return &core.Viol{Class: "history-dependent-format", Detail: fmt.Sprintf("input %q formatted as %s after the rejected inputs %q and %q, %s in a fresh process state", in, got, trunc(e1, 40), trunc(e2, 40), golden[k]), Case: cs}
+					}
+				}
+				return nil
+			})
+			o := "hist-ok"
+			if v != nil {
+				o = v.Class
+			}
+			c.CountNT(key, o, true)
+			c.P.Traces++
+		}
+	}
+	return n
+}
+
+// histories through the real entry point: repl.EvalOne formatting (FormatOnly, normal and compact) and evaluating the
+// same and other texts in one process, in every order
+var c03EntryTexts = []string{"m = macro(x) { quote(unquote(x) + 1) }\nm(2)\n", "func f(a) {\n\ta + 1\n}\nf(1)\n", "x = [1, 2, 3]\nx[1] // c\n", "a = 1\nb = macro(y) { quote(unquote(y)) }\nb(a)\n", "if true {\n\t1\n} else {\n\t2\n}\n", "unless = macro(c, a, b) { quote(if !(unquote(c)) { unquote(a) } else { unquote(b) }) }\nunless(false, 1, 2)\n"}
+
+func c03EntryPointHistories(c *core.Ctx) int {
+	type act struct {
+		op   int // 0 format normal, 1 format compact, 2 run
+		text int
+	}
+	var acts []act
+	for op := 0; op < 3; op++ {
+		for t := range c03EntryTexts {
+			acts = append(acts, act{op, t})
+		}
+	}
+	do := func(a act) (string, []string) {
+		s := eval.NewState()
+		var out strings.Builder
+		s.Out, s.LogOut, s.NoLog = &out, &out, true
+		opts := repl.Options{All: true, ShowEval: true, NoColor: true, FormatOnly: a.op < 2, Compact: a.op == 1}
+		_, _, errs, _ := repl.EvalOne(context.Background(), s, c03EntryTexts[a.text], &out, opts)
+		return out.String(), errs
+	}
+	// what each action gives when it is the first thing the process does with that text (formats also against the
+	// parser + printer used directly)
+	golden := map[act]string{}
+	for _, a := range acts {
+		o, errs := do(a)
+		golden[a] = fmt.Sprintf("%q %v", o, errs)
+	}
+	depth := 3
+	n := 0
+	var rec func(h []act)
+	rec = func(h []act) {
+		if len(h) > 0 {
+			key := fmt.Sprintf("entry|%v", h)
+			if c.MineNoDedup("entry", key) {
+				n++
+				cs := core.Case{Kind: "entry", Data: strings.Trim(fmt.Sprint(h), "[]")}
+				v := c.Run(func() *core.Viol {
+					for i, a := range h {
+						o, errs := do(a)
+						if got := fmt.Sprintf("%q %v", o, errs); got != golden[a] {
+							return &core.Viol{Class: "history-dependent-format", Detail: fmt.Sprintf("step %d of %v (op 0 format, 1 compact format, 2 run; text %q): got %s, alone %s", i, h, c03EntryTexts[a.text], got, golden[a]), Case: cs}
+						}
+					}
+					return nil
+				})
+				o := "hist-ok"
+				if v != nil {
+					o = v.Class
+				}
+				c.CountNT(key, o, true)
+				c.P.Traces++
+			}
+		}
+		if len(h) == depth {
+			return
+		}
+		for _, a := range acts {
+			rec(append(append([]act{}, h...), a))
+		}
+	}
+	rec(nil)
+	// what the entry point formats is a fixpoint of the entry point
+	if c.Shard == 0 || c.Of <= 1 {
+		for t := range c03EntryTexts {
+			for _, compact := range []bool{false, true} {
+				fm := func(text string) string {
+					s := eval.NewState()
+					var out strings.Builder
+					s.Out, s.LogOut, s.NoLog = &out, &out, true
+					_, _, _, _ = repl.EvalOne(context.Background(), s, text, &out, repl.Options{All: true, ShowEval: true, NoColor: true, FormatOnly: true, Compact: compact})
+					return out.String()
+				}
+				f1 := fm(c03EntryTexts[t])
+				if f2 := fm(f1); f2 != f1 || f1 == "" {
+					c.Report(&core.Viol{Class: "entry:not-fixpoint", Detail: fmt.Sprintf("%q formatted through repl.EvalOne (compact %v) as %q, and that as %q", c03EntryTexts[t], compact, f1, f2), Case: core.Case{Kind: "entry", Data: fmt.Sprint(t, compact)}})
+				}
+			}
+		}
+	}
+	return n
+}
+
 func runC03(c *core.Ctx) {
 	token.Init()
 	opt := corpusOptFor(c)
@@ -582,6 +765,10 @@ func runC03(c *core.Ctx) {
 			}
 			c.CountNT("after-dictionary", out, true)
 		}
+		nl := c03LongLiterals(c)
+		nr := c03AfterRejected(c)
+		ne := c03EntryPointHistories(c)
+		bounds = append(bounds, fmt.Sprintf("long literals: 5 kinds x lengths 257, 300 x every position of a single differing byte, both texts formatted alternately in one process (%d pairs); every ordered pair of %d rejected inputs (nested / chained beyond the parser limits, syntax errors, incomplete, illegal bytes) followed by 29 valid inputs (%d); entry point: every sequence of <=3 actions {format, compact format, run} x %d canonical scripts (macros, functions, comments) through repl.EvalOne, each result compared with the action done alone (%d)", nl, len(c03Rejected), nr, len(c03EntryTexts), ne))
 		bounds = append(bounds, fmt.Sprintf("interning histories: every permutation of every subset of <=4 of %d inputs, each formatted after each prefix and compared with the fresh-process-state result", len(c03HistInputs)))
 	}
 	c.P.Bound = strings.Join(bounds, "; ") + "; normal and compact mode"
@@ -589,9 +776,9 @@ func runC03(c *core.Ctx) {
 
 func init() {
 	core.Register(&core.Check{
-		ID:    "C02",
-		Level: "exploration",
-		Rule: "source texts enumerated exhaustively (G-syn trees by size in two renderings, statement lists, statement adjacency pairs/triples with each separator, all literal spellings and single-byte string contents, comments at every statement boundary, shipped programs and their single-byte mutations); a text is a case iff the parser accepts it without error/continuation. Oracle: canonical dump of parse(t) equals canonical dump of parse(print(parse(t))) in normal mode (with comments) and compact mode (comments dropped from both), and the printed text parses without error. Also: all operator triples in 8 groupings of four operands and quadruples of representative operators in the 14 groupings of five, every token kind in parameter position, ten block/expression forms nested up to 1000 deep, and the normalised text repl.EvalOne returns (REPL history) under all 32 combinations of its formatting options for programs with functions, comments and macros. Non-trivial = accepted by the parser; distinct by text.",
+		ID:          "C02",
+		Level:       "exploration",
+		Rule:        "source texts enumerated exhaustively (G-syn trees by size in two renderings, statement lists, statement adjacency pairs/triples with each separator, all literal spellings and single-byte string contents, comments at every statement boundary, shipped programs and their single-byte mutations); a text is a case iff the parser accepts it without error/continuation. Oracle: canonical dump of parse(t) equals canonical dump of parse(print(parse(t))) in normal mode (with comments) and compact mode (comments dropped from both), and the printed text parses without error. Also: all operator triples in 8 groupings of four operands and quadruples of representative operators in the 14 groupings of five, every token kind in parameter position, ten block/expression forms nested up to 1000 deep, and the normalised text repl.EvalOne returns (REPL history) under all 32 combinations of its formatting options for programs with functions, comments and macros. Non-trivial = accepted by the parser; distinct by text.",
 		Assume:      []string{"canonical tree dump of internal/obs (numbers by value, everything else by token type+literal)"},
 		QuickCap:    100 * time.Second,
 		ThoroughCap: 20 * time.Minute,
@@ -603,9 +790,9 @@ func init() {
 		},
 	})
 	core.Register(&core.Check{
-		ID:    "C03",
-		Level: "exploration",
-		Rule: "same corpus as C02; oracle: print(parse(print(parse(t)))) == print(parse(t)) byte for byte in normal and compact mode, printing the same tree three times gives the same bytes, normal-mode output ends with exactly one newline; plus interning histories: every permutation of every subset of <=4 of 12 inputs whose literals collide across token types, each input formatted after each prefix of the history and compared with formatting it first after token.Init(). Non-trivial = accepted by the parser; distinct by text.",
+		ID:          "C03",
+		Level:       "exploration",
+		Rule:        "same corpus as C02; oracle: print(parse(print(parse(t)))) == print(parse(t)) byte for byte in normal and compact mode, printing the same tree three times gives the same bytes, normal-mode output ends with exactly one newline; plus interning histories: every permutation of every subset of <=4 of 12 inputs whose literals collide across token types, each input formatted after each prefix of the history and compared with formatting it first after token.Init(). Non-trivial = accepted by the parser; distinct by text.",
 		Assume:      []string{"Go map iteration order is not ownable: the printer ranges over no map (MapLiteral.Order is a slice); repetition (3 prints) is the only evidence for that sub-clause"},
 		QuickCap:    100 * time.Second,
 		ThoroughCap: 20 * time.Minute,
